@@ -1,13 +1,14 @@
 (* C14: hashes behave as insertion-ordered maps under every operation history.
    Statements only; the proofs are in Proofs/HashTblProofs.v, the model (of zygo/hashutils.go,
-   zygo/functions.go, zygo/jsonmsgp.go) and the specification in Model/HashTbl.v.
+   zygo/functions.go, zygo/jsonmsgp.go as they are after fix commits c6b7e51 3cb3bf8 fd09fed
+   0d39455) and the specification in Model/HashTbl.v.
 
-   ah : list atom -> Z is the hash code of array keys (Blake2b of the printed form in the
-   code) and is ARBITRARY in every theorem; atoms are hashed as the code does (int/char by
-   value, symbol by number, string by FNV-1/32), so colliding codes are covered.
-   zop_ok o    : the key of o is an atom or an array holding no char (for those Compare = 0
-                 implies the same printed form, hence the same code);
-   zop_plain o : o is not "hdel of a one-element array". *)
+   ah : key -> Z is the hash code of non-atom keys (Blake2b of the printed form in the code) and
+   is ARBITRARY in every theorem; atoms are hashed as the code does (int/char by value, symbol
+   by number, string by FNV-1/32): colliding codes are covered, and NO relation between hash
+   codes and Compare is assumed.  The key identity of the specification is the code's own:
+   kid ah a b = (same hash code) && (Compare = 0); on atoms it is Compare = 0 (kid_atoms).
+   zop_ok o : the key of o is not of the shape [[a]] (see nested_wrap_refuted). *)
 From Coq Require Import List ZArith Bool.
 From ZV Require Import Model.HashTbl Proofs.HashTblProofs.
 Import ListNotations.
@@ -15,17 +16,17 @@ Open Scope Z_scope.
 
 (* ---- 1. the property, over ALL histories ---- *)
 
-Theorem hash_is_ordered_map : forall ah ops, Forall (zop_ok) ops -> Forall zop_plain ops ->
-  let t := zrun ah ops in let s := zs_run ops in
+Theorem hash_is_ordered_map : forall ah ops, Forall zop_ok ops ->
+  let t := zrun ah ops in let s := zs_run ah ops in
   ZInv ah t /\ zabs ah t = s /\
   zlen t = s_len key Z s /\ zkeys t = s_keys key Z s /\
-  (forall k, key_ok k = true -> zget ah t k = zs_lookup s k) /\
-  (forall k, key_ok k = true -> unwrap k = k -> zgetd ah t k = zs_lookup s k) /\
+  (forall k, key_ok k = true -> zget ah t k = zs_lookup ah s k) /\
+  (forall k, key_ok k = true -> zgetd ah t k = zs_lookup ah s k) /\
   (forall pos, zhpair ah t pos = s_pair key Z s pos) /\
   (forall pos, zrange_pair ah t pos = s_pair key Z s pos) /\
   (forall pos, zrange_key ah t pos = s_range_key key Z s pos) /\
   zjson ah t = s_json key Z s /\ zloop_macro ah t = s_loop key Z s /\ zloop_infix ah t = s_loop key Z s /\
-  (s <> [] -> zstr ah t = s_str key Z s).
+  zstr ah t = s_str key Z s.
 Proof. exact z_hash_is_ordered_map. Qed.
 Print Assumptions hash_is_ordered_map.
 
@@ -45,15 +46,19 @@ Print Assumptions reachable_inv.
 
 (* ---- 3. refinement of the state ---- *)
 
-Theorem step_refines : forall ah t o, ZInv ah t -> zop_ok o -> zop_plain o ->
-  zabs ah (zstep ah t o) = zs_step (zabs ah t) o.
+Theorem step_refines : forall ah t o, ZInv ah t -> zop_ok o ->
+  zabs ah (zstep ah t o) = zs_step ah (zabs ah t) o.
 Proof. exact z_step_refines. Qed.
 Print Assumptions step_refines.
 
-Theorem history_refines : forall ah ops, Forall zop_ok ops -> Forall zop_plain ops ->
-  zabs ah (zrun ah ops) = zs_run ops.
+Theorem history_refines : forall ah ops, Forall zop_ok ops -> zabs ah (zrun ah ops) = zs_run ah ops.
 Proof. exact z_history_refines. Qed.
 Print Assumptions history_refines.
+
+(* the printed form agrees with the content in EVERY state (no side condition any more) *)
+Theorem str_refines : forall ah t, zstr ah t = s_str key Z (zabs ah t).
+Proof. exact z_str_refines. Qed.
+Print Assumptions str_refines.
 
 (* ---- 4. corollaries ---- *)
 
@@ -75,7 +80,7 @@ Theorem no_internal_panic : forall ah t, ZInv ah t ->
 Proof. exact z_no_internal_panic. Qed.
 Print Assumptions no_internal_panic.
 
-(* deleting a missing key changes nothing (lookups are functions of the state: they cannot) *)
+(* deleting a missing key changes nothing, in ANY state (lookups are functions of the state: they cannot) *)
 Theorem missing_delete_noop : forall ah t k, zgetd ah t k = None -> zstep ah t (ODel k) = t.
 Proof. exact z_missing_delete_noop. Qed.
 Print Assumptions missing_delete_noop.
@@ -84,95 +89,98 @@ Theorem atom_hash_compat : forall a b, aeq a b = true -> ahash a = ahash b.
 Proof. exact HashTblProofs.atom_hash_compat. Qed.
 Print Assumptions atom_hash_compat.
 
-Theorem key_identity_is_equivalence :
-  (forall a, keq a a = true) /\ (forall a b, keq a b = keq b a) /\
-  (forall a b c, keq a b = true -> keq b c = true -> keq a c = true).
-Proof. exact (conj keq_refl (conj keq_sym keq_trans)). Qed.
-Print Assumptions key_identity_is_equivalence.
+(* on atoms the identity "same code and Compare = 0" is Compare = 0 (97 and 'a' are one key) *)
+Theorem kid_atoms : forall ah a b, kid ah (KAtom a) (KAtom b) = aeq a b.
+Proof. exact HashTblProofs.kid_atoms. Qed.
+Print Assumptions kid_atoms.
 
-(* ---- 5. the same for ANY key type, key identity and hash function ---- *)
+Theorem compare_is_equivalence :
+  (forall a, ceq a a = true) /\ (forall a b, ceq a b = ceq b a) /\
+  (forall a b c, ceq a b = true -> ceq b c = true -> ceq a c = true).
+Proof. exact (conj ceq_refl (conj ceq_sym ceq_trans)). Qed.
+Print Assumptions compare_is_equivalence.
 
-Theorem generic_reachable_inv : forall (K V : Type) (keq : K -> K -> bool) (hcode : K -> Z) (unwrap : K -> K) (ok : K -> bool),
-  (forall a, keq a a = true) -> (forall a b, keq a b = keq b a) ->
-  (forall a b c, keq a b = true -> keq b c = true -> keq a c = true) ->
-  (forall a b, ok a = true -> ok b = true -> keq a b = true -> hcode a = hcode b) ->
-  (forall a, unwrap (unwrap a) = unwrap a) -> (forall a, ok a = true -> ok (unwrap a) = true) ->
-  (forall a b, keq a b = true -> unwrap a = a -> unwrap b = b) ->
-  forall ops, Forall (op_ok K V ok) ops -> Inv K V keq hcode unwrap ok (run K V keq hcode unwrap ops).
-Proof. exact HashTblProofs.reachable_inv. Qed.
-Print Assumptions generic_reachable_inv.
+(* ---- 5. the same for ANY key type, comparison and hash function ---- *)
 
+(* the code's table (Compare inside buckets, code-and-Compare on KeyOrder) for arbitrary hcode *)
+Theorem generic_hash_is_ordered_map : forall (K V : Type) (ceq : K -> K -> bool) (hcode : K -> Z) (unwrap : K -> K) (ok : K -> bool),
+  (forall a, ceq a a = true) -> (forall a b, ceq a b = ceq b a) ->
+  (forall a b c, ceq a b = true -> ceq b c = true -> ceq a c = true) ->
+  (forall a, ok a = true -> unwrap (unwrap a) = unwrap a) -> (forall a, ok a = true -> ok (unwrap a) = true) ->
+  (forall a b, ceq a b = true -> unwrap a = a -> unwrap b = b) ->
+  forall ops, Forall (op_ok K V ok) ops ->
+  let id := kidg K ceq hcode in
+  let t := run K V ceq id hcode unwrap ops in let s := s_run K V id unwrap ops in
+  KInv K V ceq hcode unwrap ok t /\ abs K V ceq hcode unwrap t = s /\
+  len K V t = s_len K V s /\ keys K V t = s_keys K V s /\
+  (forall k, ok k = true -> hash_get K V ceq hcode unwrap t k = s_lookup K V id unwrap s k) /\
+  (forall k, ok k = true -> hash_get_default K V ceq hcode unwrap t k = s_lookup K V id unwrap s k) /\
+  (forall pos, hpair K V ceq hcode unwrap t pos = s_pair K V s pos) /\
+  (forall pos, range_pair K V ceq hcode unwrap t pos = s_pair K V s pos) /\
+  (forall pos, range_key K V ceq hcode unwrap t pos = s_range_key K V s pos) /\
+  json_obs K V ceq hcode unwrap t = s_json K V s /\
+  loop_macro K V ceq hcode unwrap t = s_loop K V s /\ loop_infix K V ceq hcode unwrap t = s_loop K V s /\
+  str_obs K V ceq hcode unwrap t = s_str K V s.
+Proof. exact b_hash_is_ordered_map. Qed.
+Print Assumptions generic_hash_is_ordered_map.
+
+(* one identity everywhere, hash function respecting it on ok keys *)
 Theorem generic_history_refines : forall (K V : Type) (keq : K -> K -> bool) (hcode : K -> Z) (unwrap : K -> K) (ok : K -> bool),
   (forall a, keq a a = true) -> (forall a b, keq a b = keq b a) ->
   (forall a b c, keq a b = true -> keq b c = true -> keq a c = true) ->
   (forall a b, ok a = true -> ok b = true -> keq a b = true -> hcode a = hcode b) ->
-  (forall a, unwrap (unwrap a) = unwrap a) -> (forall a, ok a = true -> ok (unwrap a) = true) ->
+  (forall a, ok a = true -> unwrap (unwrap a) = unwrap a) -> (forall a, ok a = true -> ok (unwrap a) = true) ->
   (forall a b, keq a b = true -> unwrap a = a -> unwrap b = b) ->
-  forall ops, Forall (op_ok K V ok) ops -> Forall (op_plain K V unwrap) ops ->
-  abs K V keq hcode unwrap (run K V keq hcode unwrap ops) = s_run K V keq unwrap ops.
-Proof. exact HashTblProofs.history_refines. Qed.
+  forall ops, Forall (op_ok K V ok) ops ->
+  Inv K V keq hcode unwrap ok (run K V keq keq hcode unwrap ops) /\
+  abs K V keq hcode unwrap (run K V keq keq hcode unwrap ops) = s_run K V keq unwrap ops.
+Proof.
+  intros K V keq hcode unwrap ok H1 H2 H3 H4 H5 H6 H7 ops Hok. split.
+  - exact (HashTblProofs.reachable_inv K V keq hcode unwrap ok H1 H2 H3 H4 H5 H6 H7 ops Hok).
+  - exact (HashTblProofs.history_refines K V keq hcode unwrap ok H1 H2 H3 H4 H5 H6 H7 ops Hok).
+Qed.
 Print Assumptions generic_history_refines.
 
-(* ---- 6. where the code deviates from the property (findings; replayed on the real code) ---- *)
+(* ---- 6. the side condition that remains, and why (finding; replayed on the real code) ---- *)
 
-(* FULL statement wanted:  forall t, ZInv ah t -> zstr ah t = s_str key Z (zabs ah t).
-   It is false (next theorem); proved for every state that is non-empty or never held a bucket. *)
-Theorem str_refines_partial : forall ah t, ZInv ah t -> zabs ah t <> [] \/ buckets t = [] ->
-  zstr ah t = s_str key Z (zabs ah t).
-Proof. exact z_str_refines_partial. Qed.
-Print Assumptions str_refines_partial.
+(* FULL statement wanted: hash_is_ordered_map without the premise Forall zop_ok ops.
+   False for the key [[a]]: HashSet unwraps it once and stores [a]; SexpString, HashPairi and
+   jsonHashHelper look every stored key up through HashGet, which unwraps the stored [a] again
+   (twice, since HashGetDefault now unwraps too) and searches for a. *)
+Theorem nested_wrap_refuted : forall ah,
+  let ops := [OSet (KWrap [AInt 1]) 4] in let t := zrun ah ops in
+  zs_run ah ops = [(KArr [AInt 1], 4)] /\ zkeys t = [KArr [AInt 1]] /\ zlen t = Ok 1 /\
+  zstr ah t = ([], false) /\ zhpair ah t 0 = Crash /\ zjson ah t = Crash.
+Proof. exact HashTblProofs.nested_wrap_refuted. Qed.
+Print Assumptions nested_wrap_refuted.
 
-(* (hset h 1 5) (hdel h 1): empty content, but the printed form loses its opening brace *)
-Theorem str_after_emptying_refuted : forall ah,
-  let ops := [OSet k1 5; ODel k1] in
-  Forall zop_ok ops /\ Forall zop_plain ops /\ zs_run ops = [] /\
-  zstr ah (zrun ah ops) = ([], true) /\ s_str key Z (zs_run ops) = ([], false).
-Proof. exact HashTblProofs.str_after_emptying_refuted. Qed.
-Print Assumptions str_after_emptying_refuted.
-
-(* FULL statement wanted: history_refines without the premise Forall zop_plain ops, and
-   zgetd = zs_lookup without the premise unwrap k = k.  False: HashDelete and HashGetDefault do
-   not unwrap a one-element array key, HashSet and HashGet do. *)
-Theorem hdel_wrapped_noop : forall ah t k, ZInv ah t -> key_ok k = true -> unwrap k <> k -> zstep ah t (ODel k) = t.
-Proof. exact z_hdel_wrapped_noop. Qed.
-Print Assumptions hdel_wrapped_noop.
-
-Theorem getd_wrapped_none : forall ah t k, ZInv ah t -> key_ok k = true -> unwrap k <> k -> zgetd ah t k = None.
-Proof. exact z_getd_wrapped_none. Qed.
-Print Assumptions getd_wrapped_none.
-
-Theorem wrapped_key_refuted : forall ah,
-  let ops := [OSet k1w 5; ODel k1w] in
-  Forall zop_ok ops /\ zs_run ops = [] /\ zabs ah (zrun ah ops) = [(k1, 5)] /\
-  zget ah (zrun ah [OSet k1w 5]) k1w = Some 5 /\ zgetd ah (zrun ah [OSet k1w 5]) k1w = None.
-Proof. exact HashTblProofs.wrapped_key_refuted. Qed.
-Print Assumptions wrapped_key_refuted.
-
-(* FULL statement wanted: reachable_inv without the premise zop_ok (keys: arrays holding chars).
-   False as soon as two arrays that compare equal get different codes, e.g. [1 97] and [1 'a']. *)
-Theorem incompatible_array_hash_refuted : forall ah : list atom -> Z,
-  ah [AInt 1; AInt 97] <> ah [AInt 1; AChar 97] ->
-  let t := zrun ah [OSet kA 1; OSet kB 2; ODel kB] in
-  keq kA kB = true /\ zkeys t = [kB] /\ zget ah t kA = Some 1 /\
-  zhpair ah t 0 = Crash /\ zjson ah t = Crash.
-Proof. exact HashTblProofs.incompatible_array_hash_refuted. Qed.
-Print Assumptions incompatible_array_hash_refuted.
-
-(* ---- 7. non-vacuity: histories with colliding codes, run inside Coq ---- *)
+(* ---- 7. non-vacuity: histories with colliding codes and the former deviations, run inside Coq ---- *)
 
 (* symbol number 5 and int 5 share a code and are different keys; 97 and 'a' are one key;
-   every array gets code 5 too *)
+   every non-atom key gets code 5 too; [9] names the key 9 in hset and in hdel *)
 Example collide_run :
+  let ah := fun _ : key => 5 in
   let ops := [OSet (KAtom (ASym 5)) 1; OSet (KAtom (AInt 5)) 2; OSet (KArr [AInt 2; AInt 3]) 3;
               OSet (KAtom (AInt 97)) 4; OSet (KAtom (AChar 97)) 5; ODel (KAtom (ASym 5));
-              OSet (KArr [AInt 9]) 6; OSet (KAtom (ASym 5)) 7] in
-  zabs (fun _ => 5) (zrun (fun _ => 5) ops) =
+              OSet (KArr [AInt 9]) 6; OSet (KAtom (ASym 5)) 7; OSet (KAtom (AInt 8)) 8; ODel (KArr [AInt 8])] in
+  zabs ah (zrun ah ops) =
     [(KAtom (AInt 5), 2); (KArr [AInt 2; AInt 3], 3); (KAtom (AInt 97), 5); (KAtom (AInt 9), 6); (KAtom (ASym 5), 7)]
-  /\ zs_run ops = zabs (fun _ => 5) (zrun (fun _ => 5) ops)
-  /\ zlen (zrun (fun _ => 5) ops) = Ok 5
-  /\ zhpair (fun _ => 5) (zrun (fun _ => 5) ops) 4 = Ok (KAtom (ASym 5), 7)
-  /\ Forall zop_ok ops /\ Forall zop_plain ops.
+  /\ zs_run ah ops = zabs ah (zrun ah ops)
+  /\ zlen (zrun ah ops) = Ok 5
+  /\ zhpair ah (zrun ah ops) 4 = Ok (KAtom (ASym 5), 7)
+  /\ zgetd ah (zrun ah ops) (KArr [AInt 9]) = Some 6
+  /\ Forall zop_ok ops.
 Proof. cbv zeta. repeat split; try (vm_compute; reflexivity); repeat constructor. Qed.
+
+(* the three repaired deviations: emptied hash prints with both braces; [1 97] and [1 'a'] hashed
+   apart are two keys and deleting one leaves the other intact *)
+Example repaired_run :
+  let ah := fun k : key => match k with KArr [AInt 1; AChar 97] => 7 | _ => 5 end in
+  zstr ah (zrun ah [OSet (KAtom (AInt 1)) 5; ODel (KAtom (AInt 1))]) = ([], false)
+  /\ zabs ah (zrun ah [OSet (KArr [AInt 1]) 5; ODel (KArr [AInt 1])]) = []
+  /\ let t := zrun ah [OSet (KArr [AInt 1; AInt 97]) 1; OSet (KArr [AInt 1; AChar 97]) 2; ODel (KArr [AInt 1; AChar 97])] in
+     zkeys t = [KArr [AInt 1; AInt 97]] /\ zhpair ah t 0 = Ok (KArr [AInt 1; AInt 97], 1) /\ zlen t = Ok 1.
+Proof. cbv zeta. repeat split; vm_compute; reflexivity. Qed.
 
 Example fnv32_s : fnv32 [115] = 84696428.
 Proof. vm_compute. reflexivity. Qed.
